@@ -17,6 +17,18 @@
 
 #include "private/common.h"
 #include "runtime.h"
+#ifdef SODIUM_VERIF
+# include <stdlib.h>
+/* bits to clear from what CPUID / XGETBV report, so that a test harness can
+ * make the library see a processor with fewer features (never more) */
+static unsigned int
+_sodium_verif_clear_mask(const char *name)
+{
+    const char *s = getenv(name);
+
+    return s == NULL ? 0U : (unsigned int) strtoul(s, NULL, 0);
+}
+#endif
 
 typedef struct CPUFeatures_ {
     int initialized;
@@ -209,6 +221,10 @@ _sodium_runtime_intel_cpu_features(CPUFeatures * const cpu_features)
         return -1; /* LCOV_EXCL_LINE */
     }
     _cpuid(cpu_info, 0x00000001);
+#ifdef SODIUM_VERIF
+    cpu_info[2] &= ~_sodium_verif_clear_mask("SODIUM_VERIF_CPUID1_ECX_CLEAR");
+    cpu_info[3] &= ~_sodium_verif_clear_mask("SODIUM_VERIF_CPUID1_EDX_CLEAR");
+#endif
 #ifdef HAVE_EMMINTRIN_H
     cpu_features->has_sse2 = ((cpu_info[3] & CPUID_EDX_SSE2) != 0x0);
 #else
@@ -266,6 +282,9 @@ _sodium_runtime_intel_cpu_features(CPUFeatures * const cpu_features)
                              : "c"((uint32_t) 0U)
                              : "%edx");
 # endif
+# ifdef SODIUM_VERIF
+        xcr0 &= ~_sodium_verif_clear_mask("SODIUM_VERIF_XCR0_CLEAR");
+# endif
         if ((xcr0 & (XCR0_SSE | XCR0_AVX)) == (XCR0_SSE | XCR0_AVX)) {
             cpu_features->has_avx = 1;
         }
@@ -278,6 +297,9 @@ _sodium_runtime_intel_cpu_features(CPUFeatures * const cpu_features)
         unsigned int cpu_info7[4];
 
         _cpuid(cpu_info7, 0x00000007);
+# ifdef SODIUM_VERIF
+        cpu_info7[1] &= ~_sodium_verif_clear_mask("SODIUM_VERIF_CPUID7_EBX_CLEAR");
+# endif
         cpu_features->has_avx2 = ((cpu_info7[1] & CPUID_EBX_AVX2) != 0x0);
     }
 #endif
@@ -288,6 +310,9 @@ _sodium_runtime_intel_cpu_features(CPUFeatures * const cpu_features)
         unsigned int cpu_info7[4];
 
         _cpuid(cpu_info7, 0x00000007);
+# ifdef SODIUM_VERIF
+        cpu_info7[1] &= ~_sodium_verif_clear_mask("SODIUM_VERIF_CPUID7_EBX_CLEAR");
+# endif
         /* LCOV_EXCL_START */
         if ((cpu_info7[1] & CPUID_EBX_AVX512F) == CPUID_EBX_AVX512F &&
             (xcr0 & (XCR0_OPMASK | XCR0_ZMM_HI256 | XCR0_HI16_ZMM))
